@@ -300,6 +300,21 @@ def c18_session(job) -> List[Dict[str, Any]]:
         chunks_all += sink.take()
     for k in range(n):
         kw, rec = rand_result(r, long_names)
+        if not long_names and r.random() < 0.25:
+            # a tag pair that exactly fills a line: '[South "..."]' + newline = 253..255
+            want = r.choice([253, 254, 255])
+            ln = want - len('[South ""]\n')
+            nm = rand_name(r, ln + 1, ln)
+            nm = (nm + 'x' * ln)[:ln].rstrip() or 'x' * ln
+            nm = (nm + 'x' * ln)[:ln]
+            kw['south_player'] = nm
+            rec['south'] = nm
+        if r.random() < 0.4:
+            # the deal has been shown from another seat before it is exported
+            try:
+                kw['deal'].to_pbn(Player(r.randrange(4) + 1))
+            except Exception:  # noqa
+                pass
         e: Dict[str, Any] = {'tid': f'{tid}.w{k}', 'ev': 'longline' if long_names else 'write',
                              'rec': rec, 'raised': False}
         try:
